@@ -24,6 +24,9 @@ pub struct RFrame {
     pub err: bool,
     pub cont: bool,
     pub pad: usize,
+    /// the reply is one the receiver reports as a general error (a standard service error, an error nobody
+    /// declared, parameters of the wrong type): it still is the reply its call is owed
+    pub gen: bool,
 }
 
 #[derive(Debug, Clone, PartialEq)]
@@ -47,7 +50,7 @@ pub struct Scenario {
 impl Scenario {
     pub fn to_json(&self) -> Value {
         json!({"family":"chain","sid":self.sid,"calls":self.calls,"hold":self.hold,
-            "frames": self.frames.iter().map(|f| json!({"call":f.call,"err":f.err,"cont":f.cont,"pad":f.pad})).collect::<Vec<_>>(),
+            "frames": self.frames.iter().map(|f| json!({"call":f.call,"err":f.err,"cont":f.cont,"pad":f.pad,"gen":f.gen})).collect::<Vec<_>>(),
             "steps": self.steps.iter().map(|s| match s { Step::Feed(n) => json!(["feed", n]), Step::Poll => json!(["poll"]), Step::Drop => json!(["drop"]) }).collect::<Vec<_>>()})
     }
     pub fn from_json(v: &Value) -> Scenario {
@@ -64,6 +67,7 @@ impl Scenario {
                     err: f["err"].as_bool().unwrap(),
                     cont: f["cont"].as_bool().unwrap(),
                     pad: f["pad"].as_u64().unwrap_or(0) as usize,
+                    gen: f["gen"].as_bool().unwrap_or(false),
                 })
                 .collect(),
             steps: v["steps"]
@@ -86,6 +90,13 @@ fn frame_bytes(idx: usize, f: &RFrame, kind: &str) -> Vec<u8> {
     let pad = "r".repeat(f.pad);
     let s = if f.call == 0 {
         format!("{{\"parameters\":{{\"s\":\"later{pad}\",\"i\":{idx}}}}}")
+    } else if f.gen {
+        match (idx + f.pad) % 4 {
+            0 => format!("{{\"error\":\"org.varlink.service.InvalidParameter\",\"parameters\":{{\"parameter\":\"p{pad}\"}}}}"),
+            1 => format!("{{\"parameters\":{{\"s\":{idx},\"i\":\"{pad}\"}}}}"),
+            2 => format!("{{\"error\":\"x.y.Undeclared\",\"parameters\":{{\"why\":\"{pad}\"}}}}"),
+            _ => "{\"error\":\"org.varlink.service.PermissionDenied\"}".to_string(),
+        }
     } else if f.err {
         if f.pad == 0 && idx % 2 == 0 {
             "{\"error\":\"t.err.NotFound\"}".to_string()
@@ -154,8 +165,8 @@ pub fn run(sc: &Scenario, stats: &mut Stats) {
         .enumerate()
         .map(|(i, k)| {
             Call::new(MEnum::Echo { i: i as u32 + 1, pad: "q".repeat(i * 3) })
-                .set_oneway(k == "oneway")
-                .set_more(k == "more")
+                .set_oneway(k == "oneway" || k == "om")
+                .set_more(k == "more" || k == "om")
         })
         .collect();
     let docs: Vec<Value> = calls
@@ -349,11 +360,28 @@ pub fn run(sc: &Scenario, stats: &mut Stats) {
         drop(held);
     }
     if ended && !failed {
-        // later exchanges on the same connection: everything not owed to the chain is still there
-        feed(usize::MAX / 2, &mut off);
-        wire.borrow_mut().closed = true;
-        ev(json!({"ev":"close"}));
+        // later exchanges on the same connection: everything not owed to the chain is still there.
+        // With a lowered size limit what is left may add up to the limit (oversized traffic is C17's
+        // subject): it then arrives frame by frame, as the receives ask for it.
+        let big = stream_bytes.len() + 1 >= crate::buffer_max();
+        let ends: Vec<usize> = frames.iter().map(|f| f["end"].as_u64().unwrap() as usize).collect();
+        if !big {
+            feed(usize::MAX / 2, &mut off);
+            wire.borrow_mut().closed = true;
+            ev(json!({"ev":"close"}));
+        }
         for _ in 0..(sc.frames.len() + 2) {
+            if big {
+                match ends.iter().find(|e| **e > off) {
+                    Some(e) => feed(*e - off, &mut off),
+                    None => {
+                        if !wire.borrow().closed {
+                            wire.borrow_mut().closed = true;
+                            ev(json!({"ev":"close"}));
+                        }
+                    }
+                }
+            }
             let o = {
                 let mut fut = Box::pin(<TReplyBorrow as Target>::recv(&mut conn));
                 match poll_once(fut.as_mut()) {
@@ -380,8 +408,13 @@ pub fn run(sc: &Scenario, stats: &mut Stats) {
 
 // ------------------------------------------------------------------ generators
 
-/// A conforming reply script for the calls.
+/// A conforming reply script for the calls.  `gen_at`: the reply that ends the n-th answered call (if there
+/// is one) is a reply the receiver reports as a general error.
 fn gen_script(r: &mut Rng, calls: &[String], max_cont: usize, pad_style: u64) -> Vec<RFrame> {
+    gen_script_g(r, calls, max_cont, pad_style, None)
+}
+
+fn gen_script_g(r: &mut Rng, calls: &[String], max_cont: usize, pad_style: u64, gen_at: Option<usize>) -> Vec<RFrame> {
     let step = crate::buffer_step();
     let pad = |r: &mut Rng| match pad_style {
         0 => 0,
@@ -390,16 +423,23 @@ fn gen_script(r: &mut Rng, calls: &[String], max_cont: usize, pad_style: u64) ->
         _ => r.range(0, 2 * step),
     };
     let mut v = Vec::new();
+    let mut answered = 0usize;
     for (i, k) in calls.iter().enumerate() {
         match k.as_str() {
-            "oneway" => {}
-            "plain" => v.push(RFrame { call: i + 1, err: r.chance(1, 4), cont: false, pad: pad(r) }),
+            "oneway" | "om" => {}
+            "plain" => {
+                let g = gen_at == Some(answered);
+                answered += 1;
+                v.push(RFrame { call: i + 1, err: g || r.chance(1, 4), cont: false, pad: pad(r), gen: g })
+            }
             _ => {
+                let g = gen_at == Some(answered);
+                answered += 1;
                 let n = r.range(0, max_cont);
                 for _ in 0..n {
-                    v.push(RFrame { call: i + 1, err: false, cont: true, pad: pad(r) });
+                    v.push(RFrame { call: i + 1, err: false, cont: true, pad: pad(r), gen: false });
                 }
-                v.push(RFrame { call: i + 1, err: r.chance(1, 4), cont: false, pad: pad(r) });
+                v.push(RFrame { call: i + 1, err: g || r.chance(1, 4), cont: false, pad: pad(r), gen: g });
             }
         }
     }
@@ -473,12 +513,12 @@ pub fn gen_drop_edges(r: &mut Rng, out: &mut Vec<Scenario>) {
     for (v, kinds) in [["plain", "plain"], ["more", "plain"]].iter().enumerate() {
         let calls: Vec<String> = kinds.iter().map(|k| k.to_string()).collect();
         let frames = vec![
-            RFrame { call: 1, err: false, cont: v == 1, pad: r.range(0, 12) },
-            RFrame { call: if v == 1 { 1 } else { 2 }, err: v == 0 && r.chance(1, 3), cont: false, pad: r.range(0, 12) },
+            RFrame { call: 1, err: false, cont: v == 1, pad: r.range(0, 12), gen: false },
+            RFrame { call: if v == 1 { 1 } else { 2 }, err: v == 0 && r.chance(1, 3), cont: false, pad: r.range(0, 12), gen: false },
         ];
         let mut frames = frames;
         if v == 1 {
-            frames.push(RFrame { call: 2, err: false, cont: false, pad: 3 });
+            frames.push(RFrame { call: 2, err: false, cont: false, pad: 3, gen: false });
         }
         let base = Scenario { sid: String::new(), calls, frames, steps: vec![], hold: false };
         let lens = frame_lens(&base);
@@ -501,11 +541,13 @@ pub fn gen_drop_edges(r: &mut Rng, out: &mut Vec<Scenario>) {
 
 pub fn gen_random(r: &mut Rng, sid: String, hold: bool) -> Scenario {
     let n = r.range(1, 6);
-    let calls: Vec<String> = (0..n).map(|_| r.pick(&["plain", "oneway", "more"]).to_string()).collect();
+    let calls: Vec<String> = (0..n).map(|_| r.pick(&["plain", "oneway", "more", "plain", "more", "om"]).to_string()).collect();
     let ps = r.below(4);
-    let mut frames = gen_script(r, &calls, 3, ps);
+    // now and then one of the calls is answered by a reply the receiver reports as a general error
+    let gen_at = if r.chance(1, 5) { Some(r.below(n as u64) as usize) } else { None };
+    let mut frames = gen_script_g(r, &calls, 3, ps, gen_at);
     for _ in 0..r.below(3) {
-        frames.push(RFrame { call: 0, err: false, cont: false, pad: r.range(0, 20) });
+        frames.push(RFrame { call: 0, err: false, cont: false, pad: r.range(0, 20), gen: false });
     }
     let mut sc = Scenario { sid, calls, frames, steps: vec![], hold };
     let lens = frame_lens(&sc);
@@ -528,23 +570,26 @@ pub fn gen_random(r: &mut Rng, sid: String, hold: bool) -> Scenario {
 /// Every flag sequence of 1..=maxn calls (3 + 9 + ... sequences), one seeded script each,
 /// with trailing frames, in the given chunking style.
 pub fn gen_all_flags(r: &mut Rng, maxn: usize, out: &mut Vec<Scenario>, hold: bool) {
-    let kinds = ["plain", "oneway", "more"];
+    // the four combinations of the two flags: neither, oneway, more, both (= oneway: nobody answers it)
+    let kinds = ["plain", "oneway", "more", "om"];
     for n in 1..=maxn {
-        let count = 3usize.pow(n as u32);
+        let count = 4usize.pow(n as u32);
         for code in 0..count {
             let mut c = code;
             let calls: Vec<String> = (0..n)
                 .map(|_| {
-                    let k = kinds[c % 3];
-                    c /= 3;
+                    let k = kinds[c % 4];
+                    c /= 4;
                     k.to_string()
                 })
                 .collect();
             let ps = r.below(3);
-            let mut frames = gen_script(r, &calls, 2, ps);
+            // every seventh sequence has one reply that is reported as a general error
+            let gen_at = if code % 7 == 3 { Some(code / 7 % n) } else { None };
+            let mut frames = gen_script_g(r, &calls, 2, ps, gen_at);
             let trail = (code + n) % 3;
             for _ in 0..trail {
-                frames.push(RFrame { call: 0, err: false, cont: false, pad: 0 });
+                frames.push(RFrame { call: 0, err: false, cont: false, pad: 0, gen: false });
             }
             let mut sc = Scenario { sid: format!("a{n}-{code}"), calls, frames, steps: vec![], hold };
             let lens = frame_lens(&sc);
@@ -568,16 +613,16 @@ pub fn gen_hold_edges(r: &mut Rng, out: &mut Vec<Scenario>) {
         let mk = |pad3: usize| {
             let frames = if v == 0 {
                 vec![
-                    RFrame { call: 1, err: false, cont: false, pad: pad1 },
-                    RFrame { call: 2, err: false, cont: false, pad: pad2 },
-                    RFrame { call: 3, err: false, cont: false, pad: pad3 },
+                    RFrame { call: 1, err: false, cont: false, pad: pad1, gen: false },
+                    RFrame { call: 2, err: false, cont: false, pad: pad2, gen: false },
+                    RFrame { call: 3, err: false, cont: false, pad: pad3, gen: false },
                 ]
             } else {
                 vec![
-                    RFrame { call: 1, err: false, cont: true, pad: pad1 },
-                    RFrame { call: 1, err: false, cont: true, pad: pad2 },
-                    RFrame { call: 1, err: false, cont: false, pad: pad3 },
-                    RFrame { call: 2, err: false, cont: false, pad: 0 },
+                    RFrame { call: 1, err: false, cont: true, pad: pad1, gen: false },
+                    RFrame { call: 1, err: false, cont: true, pad: pad2, gen: false },
+                    RFrame { call: 1, err: false, cont: false, pad: pad3, gen: false },
+                    RFrame { call: 2, err: false, cont: false, pad: 0, gen: false },
                 ]
             };
             Scenario { sid: String::new(), calls: calls.clone(), frames, steps: vec![], hold: true }
@@ -622,6 +667,7 @@ pub fn from_model_behaviour(v: &Value, sid: String, hold: bool) -> Scenario {
             err: f["err"].as_bool().unwrap(),
             cont: f["cont"].as_bool().unwrap(),
             pad: 0,
+            gen: f["gen"].as_bool().unwrap_or(false),
         })
         .collect();
     let mut sc = Scenario { sid, calls, frames, steps: vec![], hold };
